@@ -545,24 +545,59 @@ func (m *engineImpl) Do(line string) string {
 			return "bad-op"
 		}
 		return errStr(m.db.EnforceRetention(ctx, time.Now().Add(-time.Hour)))
-	case "reopen": // restart on the same data directory
+	case "reopen": // the process dies here; a new one starts on the same data directory (no graceful shutdown)
 		if m.store == nil {
 			return "bad-op"
 		}
-		m.closeFiles()
-		_ = m.store.Close()
-		m.store, m.db, m.exit = nil, nil, 0
 		role := m.role
 		if len(f) == 2 {
 			role = f[1]
 		}
-		if err := m.openStore(role); err != nil {
-			m.store = nil
-			return "err open"
-		}
-		return "ok"
+		return m.crashRestart(role)
 	}
 	return "bad-op"
+}
+
+// crashRestart copies the data directory as it is now (what a dying process leaves behind),
+// abandons the old store and opens a new one on the copy.
+func (m *engineImpl) crashRestart(role string) string {
+	newDir, err := os.MkdirTemp(os.Getenv("VERIF_SCRATCH"), "verif-eng-")
+	if err != nil {
+		return "err"
+	}
+	if err := copyTree(filepath.Join(m.dir, "data"), filepath.Join(newDir, "data")); err != nil {
+		return "err copy"
+	}
+	m.closeFiles()
+	old, oldDir := m.store, m.dir
+	go func() { _ = old.Close(); _ = os.RemoveAll(oldDir) }()
+	m.store, m.db, m.exit, m.dir = nil, nil, 0, newDir
+	if err := m.openStore(role); err != nil {
+		m.store = nil
+		return "err open"
+	}
+	return "ok"
+}
+
+func copyTree(src, dst string) error {
+	return filepath.Walk(src, func(p string, info os.FileInfo, err error) error {
+		if err != nil {
+			return err
+		}
+		rel, _ := filepath.Rel(src, p)
+		target := filepath.Join(dst, rel)
+		if info.IsDir() {
+			return os.MkdirAll(target, 0o777)
+		}
+		b, err := os.ReadFile(p)
+		if err != nil {
+			return err
+		}
+		if err := os.WriteFile(target, b, 0o666); err != nil {
+			return err
+		}
+		return os.Chtimes(target, info.ModTime(), info.ModTime())
+	})
 }
 
 func (m *engineImpl) withExit(s string) string {
